@@ -5,7 +5,8 @@ orders, each judged by Semantics.tla and compared with the default pipeline."""
 import itertools
 import random
 
-from .. import progs, semcheck
+from .. import pl, progs, semcheck
+from ..tlc import MachineryError
 from . import common
 
 
@@ -58,6 +59,7 @@ def run(ctx):
         ctx.cov["relational"] = common.relational(ctx, P_, J, runs, clause="history-dependent")
 
     J, runs, cov = common.sem_check(ctx, P, variants, level="exploration", post=post, write=False)
+    cov["compound_answer_family"] = compound_family(ctx, rng)
     cov["histories_per_program"] = k
     cov["relational_comparisons"] = ctx.cov.get("relational", 0)
     ctx.write_evidence("exploration", cov, assumptions=[
@@ -65,5 +67,92 @@ def run(ctx):
         "the same labels ClauseDBEngine.ground_all uses"])
 
 
+def compound_texts(rng, n):
+    """Programs whose goals have answers with function symbols, some of them partially instantiated (p(f(_))), called both
+    unbound-then-filtered and ground.  Outside the function-free fragment of Semantics.tla: judged only by the relation the
+    property states (every history = fresh grounding of each query)."""
+    out = []
+    shapes = [("f(%s)", ["1", "2", "a"]), ("g(c,%s)", ["1", "b"]), ("[%s|t]", ["1", "2"]), ("h(k(%s))", ["1", "2"])]
+    for _ in range(n):
+        sh, vals = rng.choice(shapes)
+        facts = ["a", "b", "c", "d"]
+        lines = ["0.%d::%s." % (rng.randint(1, 9), f) for f in facts]
+        clauses = []
+        for v in rng.sample(vals, rng.randint(1, len(vals))):
+            clauses.append("p(%s) :- %s." % (sh % v, rng.choice(facts)))
+        clauses.append("p(%s) :- %s." % (sh % "_", rng.choice(facts)))
+        if rng.random() < 0.4:
+            clauses.append("p(%s) :- %s, %s." % (sh % rng.choice(vals), rng.choice(facts), rng.choice(facts)))
+        rng.shuffle(clauses)
+        lines += clauses
+        goals = []
+        for i, v in enumerate(vals[:2]):
+            lines.append("q%d :- p(X), X = %s." % (i, sh % v))
+            lines.append("r%d :- p(%s), Y = %s." % (i, sh % "Y", v))
+            goals += ["q%d" % i, "r%d" % i, "p(%s)" % (sh % v)]
+        lines.append("s :- p(X), p(X).")
+        goals.append("s")
+        rng.shuffle(goals)
+        out.append(("\n".join(lines) + "\n", goals[:rng.randint(3, 6)]))
+    return out
+
+
+def compound_family(ctx, rng):
+    T = compound_texts(rng, ctx.pick(60, 600))
+    jobs, index = [], []
+    for i, (t, goals) in enumerate(T):
+        base = [["query", g] for g in goals]
+        jobs.append(("history", {"text": t, "steps": base, "mode": "fresh"}))
+        index.append((i, "fresh", base))
+        perms = list(itertools.permutations(range(len(base))))
+        rng.shuffle(perms)
+        for k, pm in enumerate(perms[:ctx.pick(4, 10)]):
+            st = [base[j] for j in pm]
+            jobs.append(("history", {"text": t, "steps": st, "mode": "shared"}))
+            index.append((i, "hist#%d" % k, st))
+    runs = pl.run_jobs(jobs, nproc=ctx.nproc, timeout=60)
+    fresh, n = {}, 0
+    for (i, vn, st), r in zip(index, runs):
+        if vn == "fresh":
+            fresh[i] = r
+    for (i, vn, st), r in zip(index, runs):
+        if vn == "fresh":
+            continue
+        ctx.evaluations += 1
+        f = fresh[i]
+        if f.get("error") or f.get("inconclusive") or r.get("inconclusive"):
+            continue
+        n += 1
+        case = {"kind": "compound", "text": T[i][0], "steps": st, "fresh": f.get("answers")}
+        sig = {"clause": "history-dependent", "variant": "hist", "family": "compound-answers"}
+        if r.get("error"):
+            ctx.violation(dict(sig, error=r["error"], site=r.get("site", "")),
+                          "history %s raised %s (%s); each query grounded on its own answers %s\n%s" % (st, r["error"], r.get("msg"), f["answers"], T[i][0]), case)
+            continue
+        for name, v in f["answers"].items():
+            w = r["answers"].get(name)
+            if w is None or abs(w - v) > 1e-9:
+                ctx.violation(sig, "history %s reports %s = %r, grounded on its own it is %r\n%s" % (st, name, w, v, T[i][0]), case)
+                break
+    return {"programs": len(T), "histories_compared": n}
+
+
 def replay(ctx, path):
+    import json
+    with open(path) as f:
+        d = json.load(f)
+    c = d["case"]
+    if c.get("kind") == "compound":
+        base = sorted(c["steps"])
+        f = pl.run_local("history", text=c["text"], steps=base, mode="fresh")
+        r = pl.run_local("history", text=c["text"], steps=c["steps"], mode="shared")
+        print(c["text"], c["steps"], "\nfresh:", f, "\nshared:", r)
+        ctx.evaluations = 1
+        sig = {"clause": "history-dependent", "variant": "hist", "family": "compound-answers"}
+        if r.get("error"):
+            ctx.violation(dict(sig, error=r["error"], site=r.get("site", "")), r["error"], c)
+        elif any(r["answers"].get(k) is None or abs(r["answers"][k] - v) > 1e-9 for k, v in f.get("answers", {}).items()):
+            ctx.violation(sig, "history differs from fresh grounding", c)
+        ctx.write_evidence("exploration", {"evaluations": 1, "distinct_nontrivial": 0, "samples": [c["text"]]})
+        return
     common.sem_replay(ctx, path)
